@@ -197,7 +197,7 @@ func isDigit(ch byte) bool {
 // valueEnding reports whether ch ends a value/operand, in which case a following
 // '-' is a binary subtraction operator rather than a negative sign.
 func valueEnding(ch byte) bool {
-	return isDigit(ch) || isLetter(ch) || ch == ')' || ch == ']' || ch == '`' || ch == '.'
+	return isDigit(ch) || isLetter(ch) || ch == '_' || ch == ')' || ch == ']' || ch == '`' || ch == '.'
 }
 
 // precededByValue reports whether position i is preceded (ignoring spaces) by a
